@@ -451,6 +451,12 @@ func Emission(sc *Scn, r *Result, i int) []Issue {
 			out = append(out, Issue{"sent-after-destination-was-processed", fmt.Sprintf("%d probes emitted after the destination's reply had been read and the receiver had come back for more", after)})
 		}
 	}
+	// the run's transport source port is its identifier on the wire: it stays reserved (owned by a socket) while probes go out
+	if o.SinkID >= 0 && o.SinkID < len(r.Net.Sinks) {
+		if nh := r.Net.Sinks[o.SinkID].PortNotHeld; len(nh) > 0 {
+			out = append(out, Issue{"source-port-not-reserved", fmt.Sprintf("probes were sent from ports no socket owned at that moment (proto:port %v): another run can be handed the same flow", nh)})
+		}
+	}
 	// reported endpoints = wire endpoints
 	if o.Err == nil && o.Run != nil && len(probes) > 0 {
 		rs, _ := netip.AddrFromSlice(o.Run.Source.IPAddress)
